@@ -1,5 +1,5 @@
 #!/usr/bin/env python3
-"""native replay for C10 (finite automata, GetCandidateTree): search for an NFA on which `vata -r expl_fa witness` (library built from /repo's
+"""native replay for C10 (finite automata: GetCandidateTree, then Intersection): search for an NFA on which `vata -r expl_fa witness` (library built from /repo's
 working tree) returns an automaton whose language is not a subset of the original's, or is empty although the original's is not.
 NFAs in libvata's Timbuk encoding: nullary rules `x -> q` make q a start state with start symbol x, unary rules `a(p) -> q` are edges.
 Known seed first, then a seeded random search over NFAs with <= 4 states.  Replay only: it never decides a check."""
@@ -33,7 +33,8 @@ def words(finals, starts, edges, maxlen=4):
     return acc
 def gen(rnd):
     n = rnd.randint(1, 4); finals = [s for s in range(n) if rnd.random() < 0.4]
-    starts = sorted(set((rnd.choice('xy'), rnd.randrange(n)) for _ in range(rnd.randint(1, 2))))
+    starts = sorted(dict((rnd.randrange(n), rnd.choice('xy')) for _ in range(rnd.randint(1, 2))).items()); starts = [(sym, q) for q, sym in starts]
+    # one start symbol per start state: the Timbuk loader / dumper of the finite encoding keeps only one of several (seen by hand, outside the claimed functions)
     edges = sorted(set((rnd.choice('ab'), rnd.randrange(n), rnd.randrange(n)) for _ in range(rnd.randint(0, 5))))
     return n, finals, starts, edges
 try:
@@ -53,7 +54,18 @@ try:
         if not L1 <= L0: bad = 'the witness automaton accepts a word the original does not: %s' % sorted(L1 - L0)[:2]
         elif L0 and not L1: bad = 'the witness automaton is empty although the original accepts %s' % (sorted(L0, key=len)[0],)
         if bad: found = {'automaton': t, 'command': 'vata -r expl_fa witness <file>', 'output': r.stdout.decode()[-600:], 'what': bad}
-    out.update({'automata_tried': tried})
+    # Intersection: L(isect(A, B)) == L(A) & L(B) on words of up to 5 letters
+    f2 = os.path.join(d, 'M.txt'); pairs = 0
+    icases = [((2, [1], [('x', 0)], [('a', 0, 1)]), (2, [1], [('y', 0)], [('a', 0, 1)]))]
+    while found is None and time.time() - t0 < 330 and pairs < 3000:
+        A, B = icases.pop(0) if icases else (gen(rnd), gen(rnd))
+        ta, tb = text(*A), text(*B).replace('Automaton A', 'Automaton B'); open(f, 'w').write(ta); open(f2, 'w').write(tb); pairs += 1
+        r = subprocess.run([vata, '-r', 'expl_fa', 'isect', f, f2], stdout=subprocess.PIPE, stderr=subprocess.PIPE, timeout=20)
+        LA = words(*parse(ta), maxlen=5); LB = words(*parse(tb), maxlen=5); LI = words(*parse(r.stdout.decode()), maxlen=5)
+        if LI != (LA & LB):
+            found = {'automaton': ta + '\n--- second operand ---\n' + tb, 'command': 'vata -r expl_fa isect <file1> <file2>', 'output': r.stdout.decode()[-600:],
+                     'what': 'the intersection automaton accepts %s, the operands have %s in common' % (sorted(LI, key=len)[:3], sorted(LA & LB, key=len)[:3])}
+    out.update({'automata_tried': tried, 'pairs_tried': pairs})
     if found: out['reproduced'] = True; out['failing_input'] = found
 except Exception as e:
     out['error'] = str(e)
